@@ -142,6 +142,9 @@ func main() {
 	extractCalls(&fc, parseFile(filepath.Join(repo, "internal/cache/cache.go")), "cache", []string{"Write", "WriteE", "Load", "LoadE"})
 	extractCalls(&fc, parseFile(filepath.Join(repo, "pkg/cache/cache.go")), "pkgcache", []string{"Cache"})
 
+	// ---- Timeout: capacity of the channel the abandoned goroutine sends on
+	extractTimeout(&fc, parseFile(filepath.Join(repo, "action.go")))
+
 	if err := os.MkdirAll(out, 0o755); err != nil {
 		panic(err)
 	}
@@ -399,6 +402,45 @@ func extractCalls(fc *facts, f *ast.File, pkg string, funcs []string) {
 			return true
 		})
 		fc.StringLists[pkg+"_"+fn.Name.Name+"_calls"] = calls
+	}
+}
+
+func extractTimeout(fc *facts, f *ast.File) {
+	for _, d := range f.Decls {
+		fn, ok := d.(*ast.FuncDecl)
+		if !ok || fn.Name.Name != "Timeout" || fn.Body == nil {
+			continue
+		}
+		caps := []string{}
+		calls := []string{}
+		ast.Inspect(fn.Body, func(n ast.Node) bool {
+			if c, ok := n.(*ast.CallExpr); ok {
+				if id, ok := c.Fun.(*ast.Ident); ok && id.Name == "make" && len(c.Args) >= 1 {
+					if _, ok := c.Args[0].(*ast.ChanType); ok {
+						if len(c.Args) == 2 {
+							if bl, ok := c.Args[1].(*ast.BasicLit); ok {
+								caps = append(caps, bl.Value)
+							} else {
+								caps = append(caps, "?")
+							}
+						} else {
+							caps = append(caps, "0")
+						}
+					}
+				}
+			}
+			switch n.(type) {
+			case *ast.GoStmt:
+				calls = append(calls, "go")
+			case *ast.SelectStmt:
+				calls = append(calls, "select")
+			case *ast.SendStmt:
+				calls = append(calls, "send")
+			}
+			return true
+		})
+		fc.StringLists["timeout_chan_capacities"] = caps
+		fc.StringLists["timeout_shape"] = calls
 	}
 }
 
